@@ -13,10 +13,10 @@ def LoopRes (f : FImg) (d2 : Disk) (bm cnt : Nat) (e0 : Bytes) (nb : Nat) (s : W
   (2 ≤ f.end_ ∧ f.end_ ≤ 256 ∧ ∃ P, SapInv f d2 bm cnt e0 f.end_ s dc Al P) ∨
   (256 < f.end_ ∧ ∃ G P, TreeInv f d2 bm cnt e0 f.end_ s dc Al G P ∧ 1 ≤ s.indexCount)
 
-theorem writeFile_trace {f : FImg} {d2 : Disk} {bm cnt : Nat} {e0 nm : Bytes} {ft nb acc0 aux : Nat}
+theorem writeFile_trace' {f : FImg} {d2 : Disk} {bm cnt : Nat} {e0 nm : Bytes} {ft nb acc0 aux : Nat}
     (ctx : LoopCtx d2 bm cnt) (B k : Nat) (hBnb : B ∉ bmRange bm cnt) (hBsz : B < d2.raw.units.size)
     (hcovB : B / 8 < (effBuf d2 bm cnt).size) (hlenB : (unitAt d2.raw B).length = 512)
-    (hk13 : k < 13) (hkey : B = 2 → 1 ≤ k) (hkind : B ≠ 2 → kindOf B (unitAt d2.raw B) = DKind.entry)
+    (hk13 : k < 13) (hkok : kindOf B (unitAt d2.raw B) ≠ DKind.entry → 1 ≤ k)
     (he0 : entryAt (unitAt d2.raw B) k 39 = e0) (ne : NewEntry e0 nm ft nb acc0 aux)
     (hBused : freeB (effBuf d2 bm cnt) B = false)
     (hnb : ∀ p, (List.range d2.total).find? (freeB (effBuf d2 bm cnt)) = some p → p = nb)
@@ -32,13 +32,9 @@ theorem writeFile_trace {f : FImg} {d2 : Disk} {bm cnt : Nat} {e0 nm : Bytes} {f
         (setUnit dc.raw B (patched (unitAt d2.raw B) (4 + k * 39)
           (Ent.setAccess (if f.eof > 0 then Ent.setEof s.entry f.eof else s.entry) acc)))
         (clearBit (effBuf dc bm cnt) B) := by
-  have hkinds : KindsOk d2.raw 2 [B] := by
-    intro b hb
-    rw [List.mem_singleton] at hb; subst hb
-    refine ⟨fun h => ?_, hkind⟩
-    subst h; unfold kindOf; simp [volKeyBlock]
   have hgd := getDirectory_st ctx.st B (unitAt d2.raw B) hBnb (units_get_unitAt _ _ hBsz)
-  have hge := getEntry_slot hkinds B k (List.mem_singleton.mpr rfl) hk13 hkey
+  have hge : Dir.getEntry { kind := kindOf B (unitAt d2.raw B), bytes := (unitAt d2.raw B).take dirLen } (k + 1) =
+      some (entryAt (unitAt d2.raw B) k 39) := getEntry_std _ _ k hk13 hkok
   rw [he0] at hge
   obtain ⟨s, dc, Al, hloop, hres⟩ := write_loop (f := f) ctx ((ne.efacts).setEof 0) hnb hfh h1 hend hfit h0 hbytes
   have ha : AState d2 bm cnt dc Al := by
@@ -59,8 +55,8 @@ theorem writeFile_trace {f : FImg} {d2 : Disk} {bm cnt : Nat} {e0 nm : Bytes} {f
     split
     · exact setAccess_length _ _ (hef.setEof f.eof).len
     · exact setAccess_length _ _ hef.len
-  obtain ⟨d3, hd3, n3⟩ := writeEntry_next ha.st B k hBnb (by rw [ha.rawsz]; exact hBsz) (by rw [ha.bufsz]; exact hcovB)
-    (by rw [huB]; exact hlenB) hk13 hkey (fun h => by rw [huB]; exact hkind h)
+  obtain ⟨d3, hd3, n3⟩ := writeEntry_next' ha.st B k hBnb (by rw [ha.rawsz]; exact hBsz) (by rw [ha.bufsz]; exact hcovB)
+    (by rw [huB]; exact hlenB) hk13 (by rw [huB]; exact hkok)
     (Ent.setAccess (if f.eof > 0 then Ent.setEof s.entry f.eof else s.entry) acc)
   rw [take_full _ hl1, huB] at n3
   refine ⟨s, dc, Al, d3, ?_, hres, ha, hBAl, n3⟩
@@ -74,5 +70,26 @@ theorem writeFile_trace {f : FImg} {d2 : Disk} {bm cnt : Nat} {e0 nm : Bytes} {f
   simp only [hacc]
   rw [bind_ok _ _ dc dc _ (ofOption_some _ dc), bind_ok _ _ dc d3 _ hd3]
   rfl
+
+theorem writeFile_trace {f : FImg} {d2 : Disk} {bm cnt : Nat} {e0 nm : Bytes} {ft nb acc0 aux : Nat}
+    (ctx : LoopCtx d2 bm cnt) (B k : Nat) (hBnb : B ∉ bmRange bm cnt) (hBsz : B < d2.raw.units.size)
+    (hcovB : B / 8 < (effBuf d2 bm cnt).size) (hlenB : (unitAt d2.raw B).length = 512)
+    (hk13 : k < 13) (hkey : B = 2 → 1 ≤ k) (hkind : B ≠ 2 → kindOf B (unitAt d2.raw B) = DKind.entry)
+    (he0 : entryAt (unitAt d2.raw B) k 39 = e0) (ne : NewEntry e0 nm ft nb acc0 aux)
+    (hBused : freeB (effBuf d2 bm cnt) B = false)
+    (hnb : ∀ p, (List.range d2.total).find? (freeB (effBuf d2 bm cnt)) = some p → p = nb)
+    (hfh : d2.src.firstHole = true) (hne : f.chunks.length ≠ 0) (h1 : 1 ≤ f.end_) (hend : f.end_ ≤ 32768)
+    (hfit : allocCount f f.end_ ≤ (freeBlocks (effBuf d2 bm cnt) d2.total).length)
+    (h0 : f.end_ = 1 → hasChunk f 0 = true)
+    (hbytes : ∀ k data, f.chunks.lookup k = some data → ∀ x ∈ data, x < 256)
+    (acc : Nat) (hacc : f.access[0]? = some acc) :
+    ∃ s dc Al d3, writeFile { block := B, idx := k + 1 } f d2 = (.ok f.eof, d3) ∧
+      LoopRes f d2 bm cnt e0 nb s dc Al ∧
+      AState d2 bm cnt dc Al ∧ B ∉ Al ∧
+      Next dc d3 bm cnt
+        (setUnit dc.raw B (patched (unitAt d2.raw B) (4 + k * 39)
+          (Ent.setAccess (if f.eof > 0 then Ent.setEof s.entry f.eof else s.entry) acc)))
+        (clearBit (effBuf dc bm cnt) B) :=
+  writeFile_trace' ctx B k hBnb hBsz hcovB hlenB hk13 (kok_of_root hkey hkind) he0 ne hBused hnb hfh hne h1 hend hfit h0 hbytes acc hacc
 
 end A2Verif.FsProdos
